@@ -110,7 +110,12 @@ def extra(pid, tier, seed):
         for n, reps in plan:
             op = "conc %d %d %d" % (n, rng.below(10**6), 1 + rng.below(3))
             model, _ = cclib.run_lines(cclib.DRV, header + [op])
-            impl, _ = cclib.run_lines(binp, header + [op] * reps)
+            # the same trial repeated, plus FOCUSED variants: every thread's first call goes into one
+            # algorithm (each of the 11 in turn), with and without warming the CPU-feature cache first —
+            # the schedule in which one-time initialisation races; same expected results
+            iops = [op] * reps + ["%s %d %d" % (op, f, w) for f in range(11) for w in (0, 1)] * (2 if tier != "thorough" else 6)
+            reps = len(iops)
+            impl, _ = cclib.run_lines(binp, header + iops)
             if model is None or impl is None or len(model) != 2 or len(impl) != 1 + reps:
                 rp = cclib.write_replay(pid, seed, "repeat-machinery-" + cfg, "# cfg=%s\n# model or implementation gave no answer\n%s\n" % (cfg, op))
                 violations.append(("repeated cold trials: no answer", rp, True))
@@ -124,7 +129,7 @@ def extra(pid, tier, seed):
                 body = "# cfg=%s\n# property=%s seed=%d tier=%s\n# repetition %d of %d of the same cold trial differs from the model\n" % (cfg, pid, seed, tier, bad[0], reps)
                 body += "# first differing (thread.item): implementation %s\n#                                 model          %s\n" % (
                     (a[d] if d < len(a) else "?")[:300], (b[d] if d < len(b) else "?")[:300])
-                body += op + "\n"
+                body += iops[bad[0]] + "\n"
                 rp = cclib.write_replay(pid, seed, "repeat-" + cfg + "-n%d" % n, body)
                 violations.append(("cold trial repetition disagrees with the model", rp, False))
     return {"coverage": {"repeated_cold_trials": reps_done}, "violations": violations, "known": [], "evaluations": evals}
